@@ -256,8 +256,30 @@ class StreamEnd:
             async def wait_closed(self):
                 return None
 
-        self.transport.reader = self.reader
-        self.transport.writer = Writer()
+        writer = Writer()
+        writer.is_closing = lambda: False
+        writer.get_extra_info = lambda *_a, **_k: None
+
+        class _T:       # the asyncio transport beneath the writer: everything handed over has left
+            def get_write_buffer_size(self):
+                return 0
+
+            def is_closing(self):
+                return False
+
+            def get_extra_info(self, *_a, **_k):
+                return None
+
+        writer.transport = _T()
+
+        async def factory(*_a, **_k):
+            return end.reader, writer
+
+        # connected the way an application does it - connect() over a substituted asyncio.open_connection - so that
+        # nothing depends on how the transport keeps its streams
+        from unittest import mock
+        with mock.patch("asyncio.open_connection", factory):
+            loop.run_until_complete(asyncio.wait_for(self.transport.connect(), 5))
         self.taken = 0
 
     def new_writes(self) -> list[dict]:
